@@ -994,11 +994,12 @@ class ReducedDensityMatrixPropagator(MatrixData, Saveable):
         #
         # set cut-off index by the tensor cut-off time
         #
+        # (the index runs over the time axis on which the tensor is known)
+        sbi = self.RelaxationTensor.SystemBathInteraction
         if self.RelaxationTensor._has_cutoff_time:
             cutoff_indx = \
-            self.TimeAxis.nearest(self.RelaxationTensor.cutoff_time)
+            sbi.TimeAxis.nearest(self.RelaxationTensor.cutoff_time)
         else:
-            sbi = self.RelaxationTensor.SystemBathInteraction
             cutoff_indx = sbi.TimeAxis.length
             
         indx = 1
@@ -1196,11 +1197,12 @@ class ReducedDensityMatrixPropagator(MatrixData, Saveable):
         #
         # set cut-off index by the tensor cut-off time
         #
+        # (the index runs over the time axis on which the tensor is known)
+        sbi = self.RelaxationTensor.SystemBathInteraction
         if self.RelaxationTensor._has_cutoff_time:
             cutoff_indx = \
-            self.TimeAxis.nearest(self.RelaxationTensor.cutoff_time)
+            sbi.TimeAxis.nearest(self.RelaxationTensor.cutoff_time)
         else:
-            sbi = self.RelaxationTensor.SystemBathInteraction
             cutoff_indx = sbi.TimeAxis.length
             
         indx = 1
@@ -1326,11 +1328,12 @@ class ReducedDensityMatrixPropagator(MatrixData, Saveable):
         #
         # set cut-off index by the tensor cut-off time
         #
+        # (the index runs over the time axis on which the tensor is known)
+        sbi = self.RelaxationTensor.SystemBathInteraction
         if self.RelaxationTensor._has_cutoff_time:
             cutoff_indx = \
-            self.TimeAxis.nearest(self.RelaxationTensor.cutoff_time)
+            sbi.TimeAxis.nearest(self.RelaxationTensor.cutoff_time)
         else:
-            sbi = self.RelaxationTensor.SystemBathInteraction
             cutoff_indx = sbi.TimeAxis.length
             
         indx = 1
